@@ -24,6 +24,33 @@ OID = {c: md5(b) for c, b in CONTENTS.items()}
 REVOID = {v: k for k, v in OID.items()}
 
 
+_PLAIN = dict(CONTENTS)
+# the worlds of the legacy algorithm (md5-dos2unix): c1 and c2 are BINARY files (a NUL byte among mostly printable bytes)
+# that differ in their line ends only - distinct objects, because binary content is hashed as it is
+_LEGACY = {"c0": b"", "c1": b"\x00bin one\r\nmore text\r\n", "c2": b"\x00bin one\nmore text\n", "c3": b"\x00third"}
+ALG = {"name": "md5"}
+
+
+def _dos(b):
+    """Reference md5-dos2unix for contents below one read: text (no NUL, <= 30% odd bytes in the first 512) loses its CRs."""
+    head = b[:512]
+    text_chars = bytes(range(32, 127)) + b"\n\r\t\f\b"
+    is_text = (not head) or (b"\x00" not in head and len(head.translate(None, text_chars)) / len(head) <= 0.30)
+    return md5(b.replace(b"\r\n", b"\n") if is_text else b)
+
+
+def set_alg(name: str):
+    """Switch this process's world to the given store algorithm (cases run one after another in a worker process)."""
+    ALG["name"] = name
+    CONTENTS.clear()
+    CONTENTS.update(_LEGACY if name == "md5-dos2unix" else _PLAIN)
+    OID.clear()
+    OID.update({c: (_dos(b) if name == "md5-dos2unix" else md5(b)) for c, b in CONTENTS.items()})
+    REVOID.clear()
+    REVOID.update({md5(b): c for c, b in CONTENTS.items()})      # observation goes by the bytes themselves
+    assert len(set(OID.values())) == len(OID)
+
+
 def listing_bytes(listing: dict) -> bytes:
     return canonical_dir_bytes({KEYS[k]: OID[c] for k, c in listing.items()})
 
@@ -51,6 +78,8 @@ class CoWorld:
         if self.state is not None:
             cfg["state"] = self.state
         cls = LocalHashFileDB if store_cls == "local" else HashFileDB
+        if ALG["name"] != "md5":
+            cfg["hash_name"] = ALG["name"]
         self.cache = cls(self.fs, os.path.join(root, "cache"), **cfg)
         self.link = link
 
@@ -177,7 +206,7 @@ class CoWorld:
             return self.cache.get(OID[target["c"]])
         t = Tree()
         for k, c in sorted(target["listing"].items()):
-            t.add(tuple(KEYS[k].split("/")), None, HashInfo("md5", OID[c]))
+            t.add(tuple(KEYS[k].split("/")), None, HashInfo(ALG["name"], OID[c]))
         t.digest()
         return t
 
